@@ -68,3 +68,5 @@ func vFlush(cl *Client) {
 }
 
 func vQueued(cl *Client) int { return len(cl.State.outbound) }
+
+func connOf(c interface{ Close() error }) net.Conn { return c.(net.Conn) }
